@@ -3,8 +3,10 @@ package c09
 
 import (
 	"bytes"
+	"crypto/sha512"
 	"fmt"
 	"strings"
+	"sync"
 	"testing"
 
 	"github.com/wollac/iota-crypto-demo/pkg/bip39"
@@ -208,6 +210,11 @@ func TestSeedInvalidMnemonic(t *testing.T) {
 			if lang == langs[0] {
 				other = list(langs[1])
 			}
+			if h.Pick(t, "impostor", 12, 1) == 1 {
+				if w, ok := mgen.ImpostorSentence(t, l, lang); ok {
+					return invCase{lang, w, "hash-impostor-word"}
+				}
+			}
 			words := mgen.ValidSentence(t, l)
 			words, mut := mgen.Mutate(t, words, l, other)
 			if rapid.Bool().Draw(t, "twice") {
@@ -237,8 +244,120 @@ func TestSeedInvalidMnemonic(t *testing.T) {
 			}
 			return info, nil
 		},
-		Require: []string{"invalid/checksum-bit-flip/long", "invalid/checksum-bit-flip", "invalid/last-word/long", "invalid/drop", "invalid/foreign-word"},
-		Rule:    "valid sentences of every size (12..48 words, both lists) with one or two mutations (other word, last word, single checksum-bit flip, single bit flip, foreign-list word, malformed word, drop, duplicate, swap): whenever the reference rejects the sentence MnemonicToSeed must return an error and no seed; all non-trivial; distinct by case",
+		Require: []string{"invalid/checksum-bit-flip/long", "invalid/checksum-bit-flip", "invalid/last-word/long", "invalid/drop", "invalid/foreign-word", "invalid/hash-impostor-word"},
+		Rule:    "valid sentences of every size (12..48 words, both lists) with one or two mutations (other word, last word, single checksum-bit flip, single bit flip, foreign-list word, malformed word, drop, duplicate, swap), or with one word replaced by a non-list string of the same 32-bit FNV hash: whenever the reference rejects the sentence MnemonicToSeed must return an error and no seed; all non-trivial; distinct by case",
+	})
+}
+
+// ---- framing: different (mnemonic, passphrase) pairs whose concatenations coincide ----
+//
+// A = w1..wk with passphrase P and B = w1..wk' with passphrase Q where "A joined" + P == "B joined" + Q:
+// (a) the last words are a list word and a longer list word starting with it (win / winter),
+// (b) A is a valid sentence that is a proper prefix of the valid sentence B.
+// Both are valid mnemonics, the password/salt split differs, so the seeds differ.
+
+type framingCase struct {
+	Lang  string   `json:"lang"`
+	A     []string `json:"a"`
+	PassA h.S      `json:"pass_a"`
+	B     []string `json:"b"`
+	PassB h.S      `json:"pass_b"`
+	Kind  string   `json:"kind"`
+}
+
+func checkFraming(c framingCase) (h.Info, error) {
+	if err := bip39.SetWordList(c.Lang); err != nil {
+		return h.Info{}, err
+	}
+	l := list(c.Lang)
+	info := h.Info{Class: "framing/" + c.Kind, NT: true}
+	if _, err := ref.Decode(l, c.A); err != nil {
+		return info, fmt.Errorf("PRECONDITION: A invalid")
+	}
+	if _, err := ref.Decode(l, c.B); err != nil {
+		return info, fmt.Errorf("PRECONDITION: B invalid")
+	}
+	pa, pb := string(c.PassA), string(c.PassB)
+	if strings.Join(c.A, " ")+pa != strings.Join(c.B, " ")+pb || norm.NFKD.String(pa) != pa || norm.NFKD.String(pb) != pb {
+		return info, fmt.Errorf("PRECONDITION: concatenations differ or passphrases not normalized")
+	}
+	wa, wb := ref.Seed(c.A, pa), ref.Seed(c.B, pb)
+	for round := 0; round < 2; round++ { // A, B, then A, B again (whatever the first round left behind)
+		ga, err := bip39.MnemonicToSeed(append(bip39.Mnemonic{}, c.A...), pa)
+		if err != nil || !bytes.Equal(ga, wa) {
+			return info, fmt.Errorf("round %d: MnemonicToSeed(%q, %+q) = %x, %v; reference %x (the call before used %q, %+q)", round, c.A, pa, ga, err, wa, c.B, pb)
+		}
+		gb, err := bip39.MnemonicToSeed(append(bip39.Mnemonic{}, c.B...), pb)
+		if err != nil || !bytes.Equal(gb, wb) {
+			return info, fmt.Errorf("round %d: MnemonicToSeed(%q, %+q) = %x, %v; reference %x (the call before used %q, %+q: same concatenation of sentence and passphrase, different split)", round, c.B, pb, gb, err, wb, c.A, pa)
+		}
+	}
+	return info, nil
+}
+
+var prefixPairs sync.Map // lang -> [][2]int : list words (i, j) with word j = word i + something
+
+func wordPrefixPairs(lang string) [][2]int {
+	if v, ok := prefixPairs.Load(lang); ok {
+		return v.([][2]int)
+	}
+	l := list(lang)
+	var out [][2]int
+	for i, a := range l.Words {
+		for j, b := range l.Words {
+			if i != j && strings.HasPrefix(b, a) {
+				out = append(out, [2]int{i, j})
+			}
+		}
+	}
+	prefixPairs.Store(lang, out)
+	return out
+}
+
+func genFraming(t *rapid.T) framingCase {
+	lang := h.OneOf(t, "lang", langs...)
+	l := list(lang)
+	extra := h.OneOf(t, "extra", "", "", "TREZOR", " x")
+	seed := rapid.Uint64().Draw(t, "seed")
+	if pairs := wordPrefixPairs(lang); len(pairs) > 0 && rapid.Bool().Draw(t, "wordpair") {
+		pr := pairs[rapid.IntRange(0, len(pairs)-1).Draw(t, "pair")]
+		n := 16 + 4*rapid.IntRange(0, 3).Draw(t, "n")
+		nw := n * 3 / 4
+		for j := 0; j < 200000; j++ {
+			d := sha512.Sum512([]byte(fmt.Sprintf("%d/%d", seed, j)))
+			a := ref.Encode(l, d[:n])
+			// replace the last word by each member of the pair; both must carry a valid checksum
+			a1 := append(append([]string{}, a[:nw-1]...), l.Words[pr[0]])
+			a2 := append(append([]string{}, a[:nw-1]...), l.Words[pr[1]])
+			if _, err := ref.Decode(l, a1); err != nil {
+				continue
+			}
+			if _, err := ref.Decode(l, a2); err != nil {
+				continue
+			}
+			return framingCase{Lang: lang, A: a1, PassA: h.S(strings.TrimPrefix(l.Words[pr[1]], l.Words[pr[0]]) + extra), B: a2, PassB: h.S(extra), Kind: "word-is-prefix-of-word"}
+		}
+	}
+	// valid sentence that is a prefix of a longer valid sentence
+	nb := 20 + 4*rapid.IntRange(0, 3).Draw(t, "nb")
+	na := nb - 4*rapid.IntRange(1, (nb-16)/4).Draw(t, "na")
+	for j := 0; ; j++ {
+		d := sha512.Sum512([]byte(fmt.Sprintf("%d/%d", seed, j)))
+		b := ref.Encode(l, d[:nb])
+		a := b[:na*3/4]
+		if _, err := ref.Decode(l, a); err != nil {
+			continue
+		}
+		return framingCase{Lang: lang, A: append([]string{}, a...), PassA: h.S(" " + strings.Join(b[len(a):], " ") + extra), B: b, PassB: h.S(extra), Kind: "sentence-is-prefix-of-sentence"}
+	}
+}
+
+func TestSeedFraming(t *testing.T) {
+	h.Run(t, h.Sub[framingCase]{
+		Prop: "C09", Name: "seed-framing", N: 160,
+		Gen: genFraming, Check: checkFraming,
+		Require: []string{"framing/word-is-prefix-of-word", "framing/sentence-is-prefix-of-sentence"},
+		Rule:    "pairs of valid mnemonics with passphrases whose concatenations (sentence joined by spaces, then passphrase) are byte-identical although the split differs: last word a list word vs a longer list word starting with it, or a valid sentence that is a proper prefix of a longer valid sentence (both found by search over SHA-512-derived entropies); the seeds of A and B, computed alternately twice, must each equal the PBKDF2 reference; all non-trivial",
 	})
 }
 
